@@ -196,9 +196,13 @@ func init() {
 			{Pkg: waddrmgrPkg, Fn: "ZzC05LockFresh", Tiers: "qt", Reach: []string{"c05-end"}, Bound: "fresh unlocked manager: Lock, then every secret field inspected and every private accessor tried"},
 			{Pkg: waddrmgrPkg, Fn: "ZzC05LockIssued", Tiers: "qt", Reach: []string{"c05-end"}, Bound: "after issuing 3 addresses, a lookup and a cached derivation"},
 			{Pkg: waddrmgrPkg, Fn: "ZzC05LockImports", Tiers: "qt", Reach: []string{"c05-end", "imports"}, Bound: "after importing a private key, a P2SH script and a secret witness script"},
+			{Pkg: waddrmgrPkg, Fn: "ZzC05LockReloaded", Tiers: "qt", Reach: []string{"c05-end", "last-address-checked"}, Bound: "restart, unlock, account row loaded while unlocked (its cached last addresses carry private keys), then Lock"},
+			{Pkg: waddrmgrPkg, Fn: "ZzC05LockWatchOnlyAccount", Tiers: "qt", Reach: []string{"c05-end", "watch-only-account-loaded"}, Bound: "seeded manager holding an imported extended-public-key account with an issued address, then Lock"},
+			{Pkg: waddrmgrPkg, Fn: "ZzC05FailedUnlock", Tiers: "qt", Reach: []string{"c05-end"}, Bound: "Unlock with the right passphrase failing after the master and crypto keys were decrypted (damaged account key): locked and wiped afterwards"},
+			{Pkg: waddrmgrPkg, Fn: "ZzC05GuessWatchOnlyAccount", Tiers: "qt", Reach: []string{"c05-end", "right-passphrase", "wrong-passphrase", "watch-only-account-loaded"}, Bound: "symbolic 8-byte passphrase guess on a manager holding an imported watch-only account"},
 			{Pkg: waddrmgrPkg, Fn: "ZzC05GuessFresh", Tiers: "qt", Reach: []string{"c05-end", "right-passphrase", "wrong-passphrase"}, Bound: "Unlock with a fully symbolic 8-byte passphrase (solver decides equality with the real one)"},
 			{Pkg: waddrmgrPkg, Fn: "ZzC05GuessImports", Tiers: "qt", Reach: []string{"c05-end", "right-passphrase", "wrong-passphrase"}, Bound: "same after imports and issued addresses"},
-			{Pkg: waddrmgrPkg, Fn: "ZzC05Change", Tiers: "qt", Reach: []string{"c05-end", "wrong-old"}, Bound: "ChangePassphrase public/private x locked/unlocked x right/wrong old passphrase, checked immediately and after restart"},
+			{Pkg: waddrmgrPkg, Fn: "ZzC05Change", Tiers: "qt", Reach: []string{"c05-end", "wrong-old"}, Bound: "ChangePassphrase public/private x locked/unlocked x right/wrong old passphrase, checked immediately (with and without a Lock before the next Unlock, current and superseded passphrase in either order) and after restart"},
 		},
 		Assume:  append([]string{"scrypt ideal KDF / tokenised SHA-2 on the symbolic passphrase guess (real scrypt for the concrete ones)", "taproot script addresses are not exercised (witness script address covers the same lock() switch)"}, mgrAssume...),
 		Outside: "passphrases of other lengths than the real one in the symbolic guess, taproot script import, wallet-level DeriveFromKeyPath, histories longer than the three set-up states",
